@@ -20,7 +20,7 @@ INFEASIBLE_ERR = "ser::to_string(object)"
 
 def run(ctx):
     fx = ctx.facts("A")
-    w = W.World(fx, ["ruma_common", "ruma_signatures"])
+    w = W.World(fx, ["ruma_common", "ruma_signatures", "ruma_identifiers_validation"])
     dex = D.Dex(w.lookup, adt_discr=w.adt_discr, effects=lambda n: True, unroll=1, inline=U.sig_inline)
 
     # ---- A7: atomicity of sign_json ----------------------------------------------------------------
@@ -238,6 +238,9 @@ def run(ctx):
         got[v[0] if v else "<other>"] = D.show(p.ret)
     ctx.check(got.get("Ed25519", "").startswith("Option::Some(Ed25519Verifier") and all(r == "Option::None" for k, r in got.items() if k != "Ed25519") and len(got) >= 2,
               "C02.ed25519", "C02.ed25519:algorithms", w.where(f8), bad_msg=f"{got}")
+    # the verifier is selected by SigningKeyId::algorithm(): it must cut the key id where sign_json's KeyId::from_parts put the colon
+    from . import C10 as _C10
+    _C10.split_agreement(ctx, w, "C02.keyid-split", only={"key_id::KeyId"})
     ctx.assumptions += ["ed25519-dalek implements RFC 8032; base64 crate implements RFC 4648",
                         "reviewed exception: serde_json::to_string(&CanonicalJsonObject) cannot fail, so its Err edge in sign_json is infeasible"]
     ctx.samples += [{"path": "sign_json, signatures = 5", "expected": "Err and object restored"},
